@@ -269,6 +269,70 @@ def check_tls_outlives_user_fn(ck, prog, rule):
               detail="the thread frees its thread-local block before (or around) the call of the user's function: if that function panics, the panic handler reads the freed block to find the stack and the join block and frees it a second time")
 
 
+def check_tls_not_read_after_free(ck, prog, rule):
+    """the panic handler (and the thread epilogue) take what they need OUT of the thread-local block before freeing it: after
+    dealloc(get_tls_ptr()) nothing is read through a pointer into that block (a by-value `tls.read()` copy is fine, a reference
+    `&*tls` is not - the freed chunk may already be another thread's TLS)."""
+    from ..engine.prov import walk
+    COPY = ("::read", "::read_unaligned", "::read_volatile", "Clone::clone", "ptr::read")
+    for p in (PANIC, CLOSURE):
+        fn = prog.fns.get(p)
+        if fn is None:
+            continue
+        c = prog.ctx(fn)
+        memo = {}
+
+        def derives(e, depth=0):
+            """e evaluates to (something containing) a pointer into the TLS block"""
+            if not isinstance(e, tuple) or not e or depth > 40:
+                return False
+            if not isinstance(e[0], str):
+                return any(derives(x, depth + 1) for x in e)
+            if e[0] == "call":
+                nm = e[1] or ""
+                if nm.endswith(COPY):
+                    return False
+                if nm.endswith("get_tls_ptr"):
+                    return True
+                return any(derives(x, depth + 1) for x in (e[2] or ()))
+            if e[0] == "var":
+                key = (e[1], e[3] if len(e) > 3 else None)
+                if key in memo:
+                    return memo[key]
+                memo[key] = False
+                memo[key] = any(derives(d, depth + 1) for d in c.prov.expand(e))
+                return memo[key]
+            if e[0] == "const":
+                return False
+            return any(derives(x, depth + 1) for x in e[1:] if isinstance(x, tuple))
+
+        frees = [bb for bb, t in c.cfg.calls(lambda t: (t.get("callee") or "") == "alloc::alloc::dealloc") if derives(c.args(bb)[0])]
+        if not frees:
+            continue
+        late = []
+        for fb in frees:
+            nxt = c.cfg.term(fb).get("t")
+            after = c.cfg.reachable_from(nxt) if nxt is not None else set()
+            for b in fn["blocks"]:
+                if b["id"] not in after or b.get("cleanup"):
+                    continue
+                for i, st in enumerate(b["stmts"]):
+                    if st["k"] != "assign":
+                        continue
+                    e = c.prov.rvalue(st["rv"], (b["id"], i))
+                    for z in walk(e):
+                        if z[0] == "deref" and derives(z[1]):
+                            late.append((b["id"], show(e)[:80]))
+                            break
+                for a in (c.args(b["id"]) if b["term"]["k"] == "call" and b["id"] != fb else []):
+                    for z in walk(a):
+                        if z[0] == "deref" and derives(z[1]):
+                            late.append((b["id"], show(a)[:80]))
+                            break
+        ck.ob(rule, f"tls-block-not-read-after-it-was-freed|{p.split('::')[-1]}", not late, fn=p, site=c.site(late[0][0]) if late else None,
+              detail=f"`{late[0][1] if late else ''}` is read through the thread-local block after dealloc(get_tls_ptr()): the handler must copy what it needs out first (tls.read()), the freed chunk may be reused at once")
+
+
 def check_clear_tid_reset(ck, prog, rule):
     """on the thread side SET_TID_ADDRESS(0) precedes the free of the join block: otherwise the exiting thread's kernel-side clear-tid
     write (0 + futex wake) lands in freed memory - which by then may be ANOTHER thread's join block, whose exit word then reads
